@@ -76,3 +76,9 @@ package keeper
 //@   invariant nextRound(ctx, tokenID) == old(nextRound(ctx, tokenID)) + 1
 //@   invariant roundRaw(ctx, tokenID, priceTR.RoundID) != nil &&
 //@        unm["x/oracle/types.PriceTimeRound"](roundRaw(ctx, tokenID, priceTR.RoundID)) == norm["x/oracle/types.PriceTimeRound"](priceTR)
+
+// Latest price of an asset as read by the operator module (C05). Assumed, by inspection of prices.go: a price
+// returned without error is a parsed positive integer; the store is only read.
+//@ func (Keeper).GetSpecifiedAssetsPrice
+//@   flag assumed
+//@   ensures err == nil ==> !isnil(r0.Value) && val(r0.Value) > 0
